@@ -24,4 +24,69 @@ theorem src_ones_comp_add16 (a b : Nat) :
   rw [pymod_of_pos _ _ (by decide)]
   split <;> split <;> omega
 
+/-- `checksum_stanag` as written today = the model, for every byte string -/
+theorem src_checksum_stanag (buff : Bytes) :
+    Gen.Src.PES.checksum_stanag buff = (Model.PES.checksum_stanag buff : Int) := by
+  unfold Gen.Src.PES.checksum_stanag Model.PES.checksum_stanag
+  have h := stanag_fold [] buff 0
+  simp only [List.nil_append, List.length_nil, Int.zero_add] at h
+  simp only [Py.len, range_eq, h]
+  exact pymod_natCast_lit _ _
+
+/-- `ip_calc_checksum` as written today = the model, for every byte string (result and exception alike) -/
+theorem src_ip_calc_checksum (pkt : Bytes) :
+    Gen.Src.SimpleEthernet.ip_calc_checksum pkt = (Model.Net.ipCalcChecksum pkt).map Int.ofNat := by
+  unfold Gen.Src.SimpleEthernet.ip_calc_checksum Model.Net.ipCalcChecksum
+  have hpad : (if pymod (Py.len pkt) 2 = 1 then pkt ++ ([0] : Bytes) else pkt)
+      = (if (pkt.length % 2 == 1) = true then pkt ++ [0] else pkt) := by
+    simp only [Py.len, pymod_natCast_lit]
+    split <;> split <;> simp_all <;> omega
+  simp only [hpad]
+  generalize (if (pkt.length % 2 == 1) = true then pkt ++ [0] else pkt) = p
+  have hn : Int.toNat (floordiv (Py.len p) 2) = p.length / 2 := by
+    simp only [Py.len, floordiv_natCast_lit]; rfl
+  simp only [hn, structUnpackI_eq, Gen.Net.ipcs_fmt0]
+  cases structUnpack ⟨false, List.replicate (p.length / 2) Code.u16⟩ p with
+  | error e => rfl
+  | ok ws =>
+    simp only [Except.map, bind, Except.bind, sum_natCast, shr_natCast, band_natCast_lit, toNat_lit]
+    simp only [← Int.natCast_add, shr_natCast, band_inv_natCast_lit, toNat_lit]
+    rfl
+
+/-- `get_checksum_buf` (Chapter 10 header checksum) as written today = the model, for every byte string:
+    the odd-length `Exception`, the `TypeError` of `reduce` on the empty buffer, and the sum -/
+theorem src_get_checksum_buf (buf : Bytes) :
+    Gen.Src.Chapter11.get_checksum_buf buf = (Model.Ch11.getChecksumBuf buf).map Int.ofNat := by
+  unfold Gen.Src.Chapter11.get_checksum_buf Model.Ch11.getChecksumBuf
+  have hc : (pymod (Py.len buf) 2 ≠ 0) ↔ (buf.length % 2 ≠ 0) := by
+    simp only [Py.len, pymod_natCast_lit]; omega
+  have hn : Int.toNat (floordiv (Py.len buf) 2) = buf.length / 2 := by
+    simp only [Py.len, floordiv_natCast_lit]; rfl
+  simp only [hc, hn, structUnpackI_eq, Gen.Ch11.cksum_buf_fmt0]
+  split
+  · rfl
+  · cases structUnpack ⟨false, List.replicate (buf.length / 2) Code.u16⟩ buf with
+    | error e => rfl
+    | ok ws =>
+      cases ws with
+      | nil => rfl
+      | cons w ws =>
+        simp only [Except.map, bind, Except.bind, reduce_add_natCast, pymod_natCast_lit]
+        rfl
+
+/-- `get_checksum_byte_buf` (secondary header checksum) as written today = the model, for every byte string -/
+theorem src_get_checksum_byte_buf (buf : Bytes) :
+    Gen.Src.Chapter11.get_checksum_byte_buf buf = (Model.Ch11.getChecksumByteBuf buf).map Int.ofNat := by
+  unfold Gen.Src.Chapter11.get_checksum_byte_buf Model.Ch11.getChecksumByteBuf
+  have hn : Int.toNat (Py.len buf) = buf.length := rfl
+  simp only [hn, structUnpackI_eq, Gen.Ch11.cksum_byte_buf_fmt0]
+  cases structUnpack ⟨false, List.replicate buf.length Code.u8⟩ buf with
+  | error e => rfl
+  | ok ws =>
+    cases ws with
+    | nil => rfl
+    | cons w ws =>
+      simp only [Except.map, bind, Except.bind, reduce_add_natCast, pymod_natCast_lit]
+      rfl
+
 end Acra.Props.C07
